@@ -10,7 +10,7 @@ RULE = (
     "histories of operations on ONE cutplace.Cid object; operations (each over three small data sets that share key and "
     "value cells): read completely (yield mode + close; raise mode through cutplace.rows), read and abandon after k = 0, 1, "
     "2 items (generator and reader closed, or everything just dropped), read without closing, reader closed without "
-    "iterating, validate with limit 0, validate, write rows without close, write and close - 42 operations - on CIDs with "
+    "iterating, validate with limit 0, validate, write rows without close, write and close, CutplaceApp.validate (the command line's per-file step) - 45 operations - on CIDs with "
     "IsUnique, DistinctCount, or both. Oracle: history + model where the model is the implementation with fresh state: the "
     "outcome of the last operation of every history (items, rejections with row numbers, end-of-data result, written text, "
     "counters) must equal the outcome of the same operation on a freshly loaded CID. Quick: all histories of length <= 2 "
@@ -48,6 +48,7 @@ def operations():
         ops.append(("validate", d))
         ops.append(("write", d))
         ops.append(("write-close", d))
+        ops.append(("app-validate", d))
     return ops
 
 
@@ -142,6 +143,23 @@ def perform(cid, op):
                     out["end"] = None
                 except errors.CutplaceError as e:
                     out["end"] = err(e)
+        elif kind == "app-validate":
+            # the command line application validates every data path with the one CID it holds
+            import os
+            import tempfile
+
+            from cutplace import applications
+
+            handle, path = tempfile.mkstemp(suffix=".csv", prefix="cpverif_c08_")
+            try:
+                with os.fdopen(handle, "w", encoding="utf-8", newline="") as f:
+                    f.write(text)
+                app = applications.CutplaceApp()
+                app.cid = cid
+                app.validate(path)
+                out["all_ok"] = app.all_validations_were_ok
+            finally:
+                os.remove(path)
         else:
             raise ValueError(kind)
     except Exception as error:  # internal failure: part of the outcome
@@ -191,6 +209,8 @@ def family(kind):
         return "abandoned-read"
     if kind == "nothing":
         return "nothing"
+    if kind == "app-validate":
+        return "app"
     return "read"
 
 
@@ -206,7 +226,7 @@ def run(ctx):
                 if ctx.mine(index):
                     check_history(ctx, cid_kind, history)
     ctx.exhaustive = True
-    ctx.note("exhaustive part: all histories of length <= %d over 42 operations x 4 CIDs; longer histories are sampled" % max_len)
+    ctx.note("exhaustive part: all histories of length <= %d over 45 operations x 4 CIDs; longer histories are sampled" % max_len)
     n = ctx.pick(2500, 20000)
     lo, hi = ctx.pick((3, 4), (5, 8))
     for i in range(n):
